@@ -31,9 +31,9 @@ Bindings == {[k |-> "const", id |-> 101], [k |-> "const", id |-> 102], [k |-> "s
 Rts == {1, 2}
 Handles == 1..3
 
-(* expression texts (code points):  abs(`-1`)   f(@)   g(f(`1`), a)   [abs(a), f(`"x"`)]   a.b  *)
+(* expression texts (code points):  abs(`-1`)   f(@)   g(f(`1`), a)   [abs(a), f(`"x"`)]   a.b   f()   abs(a)  *)
 Texts == << <<97,98,115,40,96,45,49,96,41>>, <<102,40,64,41>>, <<103,40,102,40,96,49,96,41,44,32,97,41>>,
-            <<91,97,98,115,40,97,41,44,32,102,40,96,34,120,34,96,41,93>>, <<97,46,98>> >>
+            <<91,97,98,115,40,97,41,44,32,102,40,96,34,120,34,96,41,93>>, <<97,46,98>>, <<102,40,41>>, <<97,98,115,40,97,41>> >>
 D1 == MkObj(<<JMem(<<97>>, JInt(-2)), JMem(<<98>>, JInt(1))>>)
 D2 == MkObj(<<JMem(<<97>>, MkObj(<<JMem(<<98>>, JStr(<<120>>))>>))>>)
 D3 == JNull
